@@ -1,35 +1,39 @@
 #!/usr/bin/env python3
-"""seed_matrix.py [seed-id ...]: for every seeded change under /verif/seeded, make a scratch worktree
-of /repo under /tmp, apply the patch there, run every property's quick check against that worktree
-(ketosa -repo), remove the worktree, and write /verif/seeded/MATRIX.json (+ caught_by in each meta.json).
-/repo itself is never touched."""
+"""seed_matrix.py [seed-id ...]: runs every property's quick rules against every seeded change of /verif/seeded,
+applied in memory as a go/packages overlay on /repo's current tree (`ketosa -property P -control seed-<id>`;
+/repo itself is never modified), and writes /verif/seeded/MATRIX.json plus caught_by in each meta.json.
+A seed whose patch no longer applies to the current tree is recorded as "skipped"."""
 import json, os, subprocess, sys, glob, concurrent.futures as cf
 ENV = dict(os.environ, GOFLAGS="-mod=mod", GOPROXY="off"); ENV.pop("GOWORK", None)
-PROPS = [l.split()[0] for l in subprocess.run(["/verif/bin/ketosa","-list"],capture_output=True,text=True,env=ENV).stdout.splitlines() if l.startswith("C")]
+K = os.environ.get("KETOSA", "/verif/bin/ketosa")
+PROPS = [l.strip() for l in subprocess.run([K, "-list"], capture_output=True, text=True, env=ENV).stdout.splitlines() if l.startswith("C")]
 seeds = sorted(os.path.basename(d) for d in glob.glob("/verif/seeded/C*") if os.path.isdir(d))
 if sys.argv[1:]: seeds = [s for s in seeds if s in sys.argv[1:]]
-def run_seed(s):
-    wt = f"/tmp/sw-{s}"; out = f"/tmp/sw-out-{s}"
-    subprocess.run(f"git -C /repo worktree remove --force {wt} 2>/dev/null; git -C /repo worktree add --detach {wt} HEAD -q && git -C {wt} apply /verif/seeded/{s}/patch.diff", shell=True, check=True)
-    res = {}
-    try:
-        for p in PROPS:
-            r = subprocess.run(["/verif/bin/ketosa","-property",p,"-repo",wt,"-out",out], capture_output=True, text=True, env=ENV)
-            fired = sorted({l.split(":")[1].split()[0]+"("+l.split(":")[0].strip().lower()+")" for l in r.stdout.splitlines() if l.startswith("  VIOLATED") or l.startswith("  UNDECIDED")})
-            res[p] = {"exit": r.returncode, "rules": fired}
-            if r.returncode not in (0,1): res[p]["stderr"] = r.stderr[-300:]
-    finally:
-        subprocess.run(f"git -C /repo worktree remove --force {wt}; rm -rf {out}", shell=True)
-    return s, res
+def one(job):
+    s, p = job
+    r = subprocess.run([K, "-property", p, "-control", "seed-" + s], capture_output=True, text=True, env=ENV)
+    line = (r.stdout.strip().splitlines() or ["{}"])[-1]
+    try: j = json.loads(line)
+    except Exception: j = {"error": (r.stderr or r.stdout)[-300:]}
+    return s, p, j
 matrix = {}
 if os.path.exists("/verif/seeded/MATRIX.json"): matrix = json.load(open("/verif/seeded/MATRIX.json"))
-with cf.ThreadPoolExecutor(max_workers=5) as ex:
-    for s, res in ex.map(run_seed, seeds):
-        matrix[s] = {p: v for p, v in res.items() if v["exit"] != 0}
-        print(s, {p: v["rules"] for p, v in matrix[s].items()}, flush=True)
-        mp = f"/verif/seeded/{s}/meta.json"
-        m = json.load(open(mp)); own = m["property"]
-        m["caught_by"] = {p: v["rules"] for p, v in matrix[s].items()}
-        m["caught_by_own_property_check"] = own in matrix[s] and matrix[s][own]["exit"] == 1
-        json.dump(m, open(mp, "w"), indent=1)
-json.dump(matrix, open("/verif/seeded/MATRIX.json","w"), indent=1, sort_keys=True)
+for s in seeds: matrix[s] = {}
+jobs = [(s, p) for s in seeds for p in PROPS]
+with cf.ThreadPoolExecutor(max_workers=int(os.environ.get("JOBS", "6"))) as ex:
+    for s, p, j in ex.map(one, jobs):
+        if j.get("error"):
+            matrix[s][p] = {"error": j["error"][:200]}
+        elif not j.get("applied"):
+            matrix[s][p] = {"skipped": True}
+        elif j.get("fired"):
+            rules = sorted({f.split(": ", 1)[1].split(" / ")[0] + "(" + f.split(":")[0] + ")" for f in j["fired"]})
+            matrix[s][p] = {"rules": rules}
+for s in seeds:
+    mp = f"/verif/seeded/{s}/meta.json"
+    m = json.load(open(mp)); own = m["property"]
+    m["caught_by"] = {p: v["rules"] for p, v in matrix[s].items() if "rules" in v}
+    m["caught_by_own_property_check"] = own in m["caught_by"]
+    json.dump(m, open(mp, "w"), indent=1)
+    print(s, m["caught_by"], flush=True)
+json.dump(matrix, open("/verif/seeded/MATRIX.json", "w"), indent=1, sort_keys=True)
